@@ -291,3 +291,44 @@ func VerifC04_SharedTableCalls() {
 	}
 	verifrt.Cover("called")
 }
+
+// VerifC04_ElementSegmentWritesSharedTable: an active element segment of an importer writes into the SHARED table at
+// instantiation, item by item - a `ref.null` item overwrites (clears) the slot, a `ref.func` item installs the importer's
+// function - and the exporter observes exactly that through call_indirect afterwards.
+func VerifC04_ElementSegmentWritesSharedTable() {
+	ctx := context.Background()
+	w := newVerifWorld(ctx)
+	// T: table of 2 slots, slot 0 and 1 hold T's function seven() ; call(slot) = call_indirect
+	t := &verifModule{tableMin: 2, elems: []uint32{0, 0}, exports: []verifExport{{name: "tab", kind: 1, index: 0}},
+		funcs: []verifFunc{
+			{results: []byte{vI32}, export: "seven", body: []byte{0x41, 0x07}},
+			{params: []byte{vI32}, results: []byte{vI32}, export: "call", body: []byte{0x20, 0x00, 0x11, 0x00, 0x00}},
+		}}
+	vt, err := w.guest(ctx, t, "T", nil, false)
+	verifrt.Assert(err == nil, "table exporter accepted")
+	if err != nil {
+		return
+	}
+	// B: imports the table; one function nine(); active element segment at offset 0 with expression items
+	items := [][]byte{{0xd0, 0x70, 0x0b}, {0xd2, 0x00, 0x0b}} // ref.null func ; ref.func 0 (nine)
+	i0, i1 := verifrt.Choose("item0", 2), verifrt.Choose("item1", 2)
+	b := &verifModule{tableMin: -1,
+		imports: []verifImport{{module: "T", name: "tab", kind: 1, desc: append([]byte{0x70}, vLimits(2, -1)...)}},
+		funcs:   []verifFunc{{results: []byte{vI32}, export: "nine", body: []byte{0x41, 0x09}}}}
+	seg := append([]byte{0x04, 0x41, 0x00, 0x0b, 0x02}, append(append([]byte{}, items[i0]...), items[i1]...)...)
+	bin := verifInsertBeforeCode(b.encode(), vSection(9, vVec(seg)))
+	_, err = verifInstantiate(ctx, bin, "B", w.store, w.eng, nil, false)
+	verifrt.Assert(err == nil, "table importer with an expression element segment accepted")
+	if err != nil {
+		return
+	}
+	for slot, it := range []int{i0, i1} {
+		r, e := vt.inst.ExportedFunction("call").Call(ctx, uint64(slot))
+		if it == 0 {
+			verifrt.Assert(e != nil, "a ref.null item of the importer's active segment cleared the shared slot: call_indirect traps")
+		} else {
+			verifrt.Assert(e == nil && len(r) == 1 && r[0] == 9, "a ref.func item of the importer's active segment installed the importer's function in the shared slot")
+		}
+	}
+	verifrt.Cover("written")
+}
